@@ -230,14 +230,14 @@ func (c31Addr) String() string  { return "mem" }
 // c31NoBackend: nothing the alphabet can spell reaches the backend.
 type c31NoBackend struct{}
 
-func (c31NoBackend) Get([]byte) (*redisValue, error)       { panic("c31: backend reached") }
-func (c31NoBackend) Set(setArgs) (bool, error)             { panic("c31: backend reached") }
-func (c31NoBackend) Del([][]byte) (int64, error)           { panic("c31: backend reached") }
-func (c31NoBackend) MGet([][]byte) ([]*redisValue, error)  { panic("c31: backend reached") }
-func (c31NoBackend) MSet([][2][]byte) error                { panic("c31: backend reached") }
-func (c31NoBackend) Exists([][]byte) (int64, error)        { panic("c31: backend reached") }
-func (c31NoBackend) IncrBy([]byte, int64) (int64, error)   { panic("c31: backend reached") }
-func (c31NoBackend) Close() error                          { return nil }
+func (c31NoBackend) Get([]byte) (*redisValue, error)      { panic("c31: backend reached") }
+func (c31NoBackend) Set(setArgs) (bool, error)            { panic("c31: backend reached") }
+func (c31NoBackend) Del([][]byte) (int64, error)          { panic("c31: backend reached") }
+func (c31NoBackend) MGet([][]byte) ([]*redisValue, error) { panic("c31: backend reached") }
+func (c31NoBackend) MSet([][2][]byte) error               { panic("c31: backend reached") }
+func (c31NoBackend) Exists([][]byte) (int64, error)       { panic("c31: backend reached") }
+func (c31NoBackend) IncrBy([]byte, int64) (int64, error)  { panic("c31: backend reached") }
+func (c31NoBackend) Close() error                         { return nil }
 
 // ---- running one stream through the real code ------------------------------------------
 
